@@ -14,3 +14,5 @@ def run(chk, replay=None):
                        "distinct = distinct projected traces; non-trivial = at least two context switches among owned events")
     chk.prove()
     k1.run_unit(chk, event.EventV1())
+    k1.run_unit(chk, event.AutoReset())
+    k1.run_unit(chk, event.AutoResetMulti(), key_prefix="auto_reset/multi-consumer-spurious-done")
